@@ -440,8 +440,8 @@ func (r *replica) view() view {
 	return v
 }
 
-// sameView compares everything but the session hash when withSessions is
-// false (the session table is not part of a streamed on-disk snapshot).
+// sameView compares everything the property lists: applied index, user
+// state, session table hash, membership.
 func sameView(a, b view) bool {
 	return a.Applied == b.Applied && a.UserHash == b.UserHash && a.SessionHash == b.SessionHash &&
 		a.Membership == b.Membership && a.MemberHash == b.MemberHash && a.User == b.User
